@@ -66,6 +66,7 @@ Def(e) ==
       [] e.fam = "NewDense" -> GraphOfRankSet(p[1], { r \in 0..(Len(m) - 1) : m[r + 1] > 0 })
       [] e.fam = "NewDenseNil" -> Empty(p[1])
       [] e.fam \in {"NewSparse", "PruferDecodeOf", "MulticodeDecodeOf", "Graph6DecodeOf", "Sparse6DecodeOf"} -> GofJ(e.g)
+      [] e.fam = "Sparse6DecodeShuffled" -> IF S6Decode(m).ok /\ S6Decode(m).G = GofJ(e.g) THEN GofJ(e.g) ELSE [n |-> -2, E |-> {}]   \* -2: the harness wrote a wrong string
       [] e.fam = "NewSparseNil" -> Empty(p[1])
       [] e.fam = "RandomGraph" -> IF p[2] = 0 THEN Empty(p[1]) ELSE IF p[2] = 100 THEN Complete(p[1]) ELSE NoDef
       [] e.fam = "RandomTree" -> NoDef
@@ -74,6 +75,8 @@ Def(e) ==
       [] e.fam = "LineGraphDense" -> NoDef
       [] e.fam = "SplitEdge" -> SplitEdge(GofJ(e.g), p[1], p[2])
       [] e.fam = "Contract" -> Contract(GofJ(e.g), p[1], p[2])
+      [] e.fam = "ContractSplit" -> SplitEdge(Contract(GofJ(e.g), p[1], p[2]), p[3], p[4])
+      [] e.fam = "SplitContract" -> Contract(SplitEdge(GofJ(e.g), p[1], p[2]), p[3], p[4])
 
 JudgeConstruct(e) ==
     IF Crashed(e.res) \/ e.res = "timeout" THEN e.res
